@@ -146,9 +146,10 @@ def make_files(rng, root, count, nbytes, layout):
             fh.write(data)
         files.append(fn)
     if layout in ("mixed", "extra"):
-        for nm in ("README.txt", "notes.binx", "data.bin.bak", "x.csv"):
+        # non-sample files, some larger than the samples and one exactly of another supported sample size
+        for nm, size in (("README.txt", 100), ("notes.binx", 6000), ("data.bin.bak", 125000), ("x.csv", 3 * nbytes + 17)):
             with open(os.path.join(root, nm), "wb") as fh:
-                fh.write(rng.randbytes(100))
+                fh.write(rng.randbytes(size))
     return files
 
 
@@ -200,6 +201,8 @@ def run(tier):
         scenarios += [(1000000, 3, 2, "mixed", 16, True), (1000000, 1, 1, "flat", 1, False)]
     else:
         scenarios = [(20000, 1, 1, "flat", 1, False), (20000, 7, 3, "mixed", 16, True), (20000, 7, 64, "nested", 4, False), (20000, 2, 2, "dat", 16, False),
+                     (20000, 6, 1, "extra", 1, False),      # one worker takes every file in turn on one core
+                     (20000, 5, 2, "mixed", 2, False),
                      (1000000, 1, 2, "flat", 16, False)]
     groups = []
     metas = []
